@@ -76,7 +76,7 @@ type Op struct {
 	Store int    `json:"s"`
 	Del   bool   `json:"d,omitempty"`
 	Key   B      `json:"k"`
-	Val   string `json:"v,omitempty"`
+	Val   string `json:"v,omitempty"` // "" (and not Del): a zero-length value
 }
 
 type MSHist struct {
@@ -85,6 +85,26 @@ type MSHist struct {
 	Lazy    bool    `json:"lazy"`
 	Commits [][]Op  `json:"commits"` // ops before each commit; Store == NStores addresses the transient store
 	Reload  []int   `json:"reload"`  // reload after these commit numbers (1-based)
+	// ViaCache: the writes of a block go through rs.CacheMultiStore() and one Write() (as baseapp's ante does)
+	ViaCache bool `json:"via_cache,omitempty"`
+	// LateFrom > 0: the last IAVL store is only mounted by instances opened after that many commits
+	// (a store added by an upgrade: its own version numbering lags the multistore's)
+	LateFrom int `json:"late_from,omitempty"`
+}
+
+// AddLateStore turns the last store of a history into one that is mounted at a later reload (only under pruning
+// options whose retention rule does not depend on absolute version numbers).
+func AddLateStore(r *sim.Rand, h *MSHist) {
+	if h.NStores < 2 || len(h.Reload) == 0 {
+		return
+	}
+	if h.Pruning != nil && !(h.Pruning[1] <= 1 || h.Pruning[0] >= 100) {
+		return
+	}
+	h.LateFrom = h.Reload[r.Intn(len(h.Reload))]
+	if h.LateFrom >= len(h.Commits) {
+		h.LateFrom = 0
+	}
 }
 
 var keyAlphabet = []string{"a", "ab", "abc", "b", "\x00", "\x00\x00", "\xff", "\xff\xff", "k1", "k2", "zz", "m"}
@@ -111,6 +131,7 @@ func GenMSHist(r *sim.Rand, quick bool) MSHist {
 	case 8:
 		h.Pruning = &[2]int64{0, 0}
 	}
+	h.ViaCache = r.Chance(30)
 	n := 8 + r.Intn(30)
 	if !quick {
 		n = 30 + r.Intn(90)
@@ -118,6 +139,9 @@ func GenMSHist(r *sim.Rand, quick bool) MSHist {
 	for c := 0; c < n; c++ {
 		var ops []Op
 		k := r.Intn(8)
+		if h.ViaCache {
+			k = 4 + r.Intn(24) // enough distinct keys per store for the order of application to matter
+		}
 		if r.Chance(10) {
 			k = 0 // empty commit
 		}
@@ -125,7 +149,7 @@ func GenMSHist(r *sim.Rand, quick bool) MSHist {
 			o := Op{Store: r.Intn(h.NStores + 1), Key: B(keyAlphabet[r.Intn(len(keyAlphabet))])}
 			if r.Chance(30) {
 				o.Del = true
-			} else {
+			} else if !r.Chance(6) { // else: a zero-length value (a presence marker)
 				o.Val = fmt.Sprintf("v%d.%d", c, r.Intn(1000))
 			}
 			ops = append(ops, o)
@@ -150,7 +174,10 @@ type msInst struct {
 	tkey  *stypes.TransientStoreKey
 }
 
-func openMS(db dbm.DB, h *MSHist) *msInst {
+func openMS(db dbm.DB, h *MSHist) *msInst { return openMSAt(db, h, len(h.Commits)) }
+
+// openMSAt: an instance opened after `done` commits (decides whether the late store is mounted yet).
+func openMSAt(db dbm.DB, h *MSHist, done int) *msInst {
 	rs := rootmulti.NewStore(db)
 	if h.Pruning != nil {
 		rs.SetPruning(stypes.NewPruningOptions(h.Pruning[0], h.Pruning[1]))
@@ -158,6 +185,9 @@ func openMS(db dbm.DB, h *MSHist) *msInst {
 	rs.SetLazyLoading(h.Lazy)
 	in := &msInst{rs: rs}
 	for i := 0; i < h.NStores; i++ {
+		if h.LateFrom > 0 && i == h.NStores-1 && done < h.LateFrom {
+			continue
+		}
 		k := stypes.NewKVStoreKey(fmt.Sprintf("store%d", i))
 		in.keys = append(in.keys, k)
 		rs.MountStoreWithDB(k, stypes.StoreTypeIAVL, nil)
@@ -168,17 +198,42 @@ func openMS(db dbm.DB, h *MSHist) *msInst {
 }
 
 func (in *msInst) apply(ops []Op, h *MSHist) {
+	var ms stypes.MultiStore = in.rs
+	var cms stypes.CacheMultiStore
+	if h.ViaCache {
+		cms = in.rs.CacheMultiStore()
+		ms = cms
+	}
 	for _, o := range ops {
 		var st stypes.KVStore
 		if o.Store >= h.NStores {
-			st = in.rs.GetKVStore(in.tkey)
+			st = ms.GetKVStore(in.tkey)
+		} else if o.Store >= len(in.keys) {
+			continue // the late store is not mounted yet
 		} else {
-			st = in.rs.GetKVStore(in.keys[o.Store])
+			st = ms.GetKVStore(in.keys[o.Store])
 		}
 		if o.Del {
 			st.Delete([]byte(o.Key))
 		} else {
 			st.Set([]byte(o.Key), []byte(o.Val))
+		}
+	}
+	if cms != nil {
+		cms.Write()
+	}
+}
+
+// applyModel mirrors apply on the sorted-map model.
+func (in *msInst) applyModel(model content, ops []Op, h *MSHist) {
+	for _, o := range ops {
+		if o.Store >= h.NStores || o.Store >= len(in.keys) {
+			continue
+		}
+		if o.Del {
+			delete(model[o.Store], string(o.Key))
+		} else {
+			model[o.Store][string(o.Key)] = o.Val
 		}
 	}
 }
@@ -189,6 +244,9 @@ type content []map[string]string // per IAVL store
 // of the alphabet — and reports any disagreement between them as content under a marker key.
 func (in *msInst) dump(h *MSHist) content {
 	out := make(content, h.NStores)
+	for i := range out {
+		out[i] = map[string]string{}
+	}
 	for i, k := range in.keys {
 		m := map[string]string{}
 		st := in.rs.GetKVStore(k)
@@ -290,7 +348,7 @@ func safely(fn func()) (perr interface{}) {
 // RunC12 executes one history and judges durability / version readability.
 func RunC12(h *MSHist, rep Reporter) {
 	db := dbm.NewMemDB()
-	in := openMS(db, h)
+	in := openMSAt(db, h, 0)
 	if err := in.rs.LoadLatestVersion(); err != nil {
 		rep.Violate("C12", "initial-load", fmt.Sprintf("LoadLatestVersion on an empty database failed: %v", err))
 		return
@@ -309,16 +367,7 @@ func RunC12(h *MSHist, rep Reporter) {
 	for ci, ops := range h.Commits {
 		v := int64(ci + 1)
 		in.apply(ops, h)
-		for _, o := range ops {
-			if o.Store >= h.NStores {
-				continue
-			}
-			if o.Del {
-				delete(model[o.Store], string(o.Key))
-			} else {
-				model[o.Store][string(o.Key)] = o.Val
-			}
-		}
+		in.applyModel(model, ops, h)
 		var cid stypes.CommitID
 		if p := safely(func() { cid = in.rs.Commit() }); p != nil {
 			rep.Violate("C12", "commit-panic", fmt.Sprintf("Commit of version %d panicked: %v (pruning %s)", v, p, pstr))
@@ -344,7 +393,10 @@ func RunC12(h *MSHist, rep Reporter) {
 		}
 		if reload[ci+1] || ci == len(h.Commits)-1 {
 			rep.Count("c12.reloads", 1)
-			n := openMS(db, h)
+			if h.LateFrom > 0 && ci+1 >= h.LateFrom && len(in.keys) < h.NStores {
+				rep.Count("c12.late_store_mounted", 1)
+			}
+			n := openMSAt(db, h, ci+1)
 			var err error
 			if p := safely(func() { err = n.rs.LoadLatestVersion() }); p != nil {
 				err = fmt.Errorf("panic: %v", p)
@@ -361,7 +413,7 @@ func RunC12(h *MSHist, rep Reporter) {
 			}
 			// every target version
 			for u := int64(1); u <= v+1; u++ {
-				t := openMS(db, h)
+				t := openMSAt(db, h, ci+1)
 				var err error
 				if p := safely(func() { err = t.rs.LoadVersion(u) }); p != nil {
 					err = fmt.Errorf("panic: %v", p)
@@ -375,7 +427,17 @@ func RunC12(h *MSHist, rep Reporter) {
 					if lc := t.rs.LastCommitID(); lc.Version != u || !bytes.Equal(lc.Hash, cids[u].Hash) {
 						rep.Violate("C12", "old-version-commitid", fmt.Sprintf("LoadVersion(%d) reports %v, committed %v", u, lc, cids[u]))
 					}
-					if d := diffContent(versions[u], t.dump(h)); d != "" {
+					got := t.dump(h)
+					if h.LateFrom > 0 && u <= int64(h.LateFrom) {
+						// The late store did not exist at this version. rootmulti loads it with a zero CommitID, which
+						// IAVL reads as "latest", so it shows its current content; the statement does not speak about
+						// stores at versions before they were mounted: observed and counted, not judged.
+						if len(got[h.NStores-1]) > 0 {
+							rep.Count("c12.observed.late_store_shows_latest_content_at_versions_before_its_mount", 1)
+						}
+						got[h.NStores-1] = map[string]string{}
+					}
+					if d := diffContent(versions[u], got); d != "" {
 						rep.Violate("C12", "old-version-content/"+pstr, fmt.Sprintf("LoadVersion(%d) at latest %d (pruning %s): %s", u, v, pstr, d))
 					}
 				case err == nil:
@@ -424,16 +486,7 @@ func RunC13(h *MSHist, rep Reporter) int {
 	opsIn := []int{0}
 	for ci, ops := range h.Commits {
 		in.apply(ops, h)
-		for _, o := range ops {
-			if o.Store >= h.NStores {
-				continue
-			}
-			if o.Del {
-				delete(model[o.Store], string(o.Key))
-			} else {
-				model[o.Store][string(o.Key)] = o.Val
-			}
-		}
+		in.applyModel(model, ops, h)
 		before := cdb.Ops
 		var cid stypes.CommitID
 		if p := safely(func() { cid = in.rs.Commit() }); p != nil {
